@@ -7,7 +7,7 @@
    The invariant [Inv s m a] couples a model state [s] with the state [m] of the property
    monitor (Spec_C30.mon) and proof-only bookkeeping [a] (which tickets sit in which slot). *)
 From Coq Require Import Arith List Bool Lia PeanoNat.
-From F8 Require Import C30.Mpmc C30.Spec_C30.
+From F8 Require Import C30.Mpmc C30.Spec_C30 C30.TraceProofs.
 Import ListNotations.
 
 Lemma upd_same {A} (f : nat -> A) k v : upd f k v k = v.
@@ -135,7 +135,10 @@ Record Inv (s : st) (m : mon) (a : aux) : Prop := {
   i_slk : forall i k, i <= mask -> In k (slk a i) -> k < pP s;
   i_rem : forall t, rem m t = cur (th s t);
   i_pend : forall t, pendP m t = holdP (tpc (th s t)) /\ pendC m t = holdC (tpc (th s t));
-  i_th : forall t, TI s m a t (tpc (th s t))
+  i_th : forall t, TI s m a t (tpc (th s t));
+  (* every ticket below a cursor is completed or held by a thread between its CAS and its final store *)
+  i_heldP : forall k, k < pP s -> k < sp s (idx k) \/ exists t, holdP (tpc (th s t)) = Some k;
+  i_heldC : forall k, k < pC s -> k < sc s (idx k) \/ exists t, holdC (tpc (th s t)) = Some k
 }.
 
 (* ---- initial state ---- *)
@@ -221,6 +224,25 @@ Proof.
   rewrite He in E2. assert (pr0 = pr) by congruence. subst pr0. congruence.
 Qed.
 
+Lemma held_keep (f : pc -> option nat) (s : st) t X k :
+  f (tpc X) = f (tpc (th s t)) ->
+  (exists t0, f (tpc (th s t0)) = Some k) -> exists t0, f (tpc (upd (th s) t X t0)) = Some k.
+Proof.
+  intros E (t0 & H). exists t0. destruct (Nat.eq_dec t0 t) as [->|Hne];
+    [rewrite upd_same; congruence | rewrite upd_other by assumption; assumption].
+Qed.
+
+Lemma held_other (f : pc -> option nat) (s : st) t X k :
+  f (tpc (th s t)) = None ->
+  (exists t0, f (tpc (th s t0)) = Some k) -> exists t0, f (tpc (upd (th s) t X t0)) = Some k.
+Proof.
+  intros E (t0 & H). exists t0. destruct (Nat.eq_dec t0 t) as [->|Hne];
+    [congruence | rewrite upd_other by assumption; assumption].
+Qed.
+
+Lemma hold_start prog : holdP (tpc (start prog)) = None /\ holdC (tpc (start prog)) = None.
+Proof. destruct prog as [|[w|] r]; split; reflexivity. Qed.
+
 Ltac thcase t0 t :=
   destruct (Nat.eq_dec t0 t) as [->|?];
   [ rewrite ?upd_same | rewrite ?upd_other by assumption ].
@@ -253,6 +275,10 @@ Proof.
   - intros t0. rewrite E4, E5. destruct (i_pend _ _ _ I t0) as [A B]. rewrite A, B.
     thcase t0 t; [rewrite Hh1, Hh2, Hh3, Hh4|]; split; reflexivity.
   - intros t0. thcase t0 t; [apply (Hstab t _ HT) | apply (Hstab t0 _ (i_th _ _ _ I t0))].
+  - intros k Hk. destruct (i_heldP _ _ _ I k Hk) as [L|H]; [left; assumption | right].
+    apply held_keep; [congruence | assumption].
+  - intros k Hk. destruct (i_heldC _ _ _ I k Hk) as [L|H]; [left; assumption | right].
+    apply held_keep; [congruence | assumption].
 Qed.
 
 Lemma slot_eq s m a pw : Inv s m a -> pw <= sp s (idx pw) -> sp s (idx pw) < pw + mask + 1 -> sp s (idx pw) = pw.
@@ -299,6 +325,12 @@ Proof.
       * destruct (i_hi _ _ _ I _ Hi) as [E|[E L]]; lia.
       * rewrite nth_error_app2, (i_lenP _ _ _ I), HP, Nat.sub_diag; [reflexivity | rewrite (i_lenP _ _ _ I); lia].
     + eapply TI_stable; [apply (i_th _ _ _ I t0) | stab ..].
+  - intros k Hk. destruct (Nat.eq_dec k pw) as [->|Hne].
+    + right. exists t. rewrite upd_same. reflexivity.
+    + destruct (i_heldP _ _ _ I k) as [L|H]; [lia | left; assumption | right].
+      apply held_other; [rewrite Hpc; reflexivity | assumption].
+  - intros k Hk. destruct (i_heldC _ _ _ I k Hk) as [L|H]; [left; assumption | right].
+    apply held_keep; [rewrite Hpc; reflexivity | assumption].
 Qed.
 
 (* the producer stores its payload in the slot buffer *)
@@ -337,6 +369,10 @@ Proof.
     + eapply TI_stable; [apply (i_th _ _ _ I t0) | stab ..].
       * split; [reflexivity|]. apply upd_other.
         eapply (exclP s m a t t0); eauto; [rewrite Hpc; reflexivity | destruct H as [-> | ->]; reflexivity].
+  - intros k Hk. destruct (i_heldP _ _ _ I k Hk) as [L|H]; [left; assumption | right].
+    apply held_keep; [rewrite Hpc; reflexivity | assumption].
+  - intros k Hk. destruct (i_heldC _ _ _ I k Hk) as [L|H]; [left; assumption | right].
+    apply held_keep; [rewrite Hpc; reflexivity | assumption].
 Qed.
 
 (* the producer publishes: seqP[idx] := pw + mask + 1, push returns *)
@@ -381,6 +417,13 @@ Proof.
     + eapply TI_stable; [apply (i_th _ _ _ I t0) | stab ..].
       * split; [|reflexivity]. apply upd_other.
         eapply (exclP s m a t t0); eauto; [rewrite Hpc; reflexivity | destruct H as [-> | ->]; reflexivity].
+  - intros k Hk. destruct (i_heldP _ _ _ I k Hk) as [L|(t0 & H)].
+    + left. specialize (Hmono (idx k)). lia.
+    + destruct (Nat.eq_dec t0 t) as [->|Hne].
+      * rewrite Hpc in H. cbn in H. injection H as <-. left. rewrite upd_same. lia.
+      * right. exists t0. rewrite upd_other by assumption. assumption.
+  - intros k Hk. destruct (i_heldC _ _ _ I k Hk) as [L|H]; [left; assumption | right].
+    apply held_keep; [rewrite Hpc; apply hold_start | assumption].
 Qed.
 
 (* the consumer's CAS wins ticket pr = preadC *)
@@ -410,6 +453,12 @@ Proof.
       * destruct (i_lo _ _ _ I _ Hi) as [E|[E L]]; lia.
       * rewrite nth_error_app2, (i_lenC _ _ _ I), HC, Nat.sub_diag; [reflexivity | rewrite (i_lenC _ _ _ I); lia].
     + eapply TI_stable; [apply (i_th _ _ _ I t0) | stab ..].
+  - intros k Hk. destruct (i_heldP _ _ _ I k Hk) as [L|H]; [left; assumption | right].
+    apply held_keep; [rewrite Hpc; reflexivity | assumption].
+  - intros k Hk. destruct (Nat.eq_dec k pr) as [->|Hne].
+    + right. exists t. rewrite upd_same. reflexivity.
+    + destruct (i_heldC _ _ _ I k) as [L|H]; [lia | left; assumption | right].
+      apply held_other; [rewrite Hpc; reflexivity | assumption].
 Qed.
 
 (* the consumer takes the head of the slot buffer: it is the payload of its own ticket *)
@@ -455,6 +504,10 @@ Proof.
     + eapply TI_stable; [apply (i_th _ _ _ I t0) | stab ..].
       * split; [reflexivity|]. apply upd_other.
         eapply (exclC s m a t t0); eauto; [rewrite Hpc; reflexivity | destruct H as [-> | [d0 ->]]; reflexivity].
+  - intros k Hk. destruct (i_heldP _ _ _ I k Hk) as [L|H]; [left; assumption | right].
+    apply held_keep; [rewrite Hpc; reflexivity | assumption].
+  - intros k Hk. destruct (i_heldC _ _ _ I k Hk) as [L|H]; [left; assumption | right].
+    apply held_keep; [rewrite Hpc; reflexivity | assumption].
 Qed.
 
 (* the consumer releases the slot: seqC[idx] := pr + mask + 1, pop returns d *)
@@ -491,6 +544,13 @@ Proof.
     + eapply TI_stable; [apply (i_th _ _ _ I t0) | stab ..].
       * split; [|reflexivity]. apply upd_other.
         eapply (exclC s m a t t0); eauto; [rewrite Hpc; reflexivity | destruct H as [-> | [d0 ->]]; reflexivity].
+  - intros k Hk. destruct (i_heldP _ _ _ I k Hk) as [L|H]; [left; assumption | right].
+    apply held_keep; [rewrite Hpc; apply hold_start | assumption].
+  - intros k Hk. destruct (i_heldC _ _ _ I k Hk) as [L|(t0 & H)].
+    + left. specialize (Hmono (idx k)). lia.
+    + destruct (Nat.eq_dec t0 t) as [->|Hne].
+      * rewrite Hpc in H. cbn in H. injection H as <-. left. rewrite upd_same. lia.
+      * right. exists t0. rewrite upd_other by assumption. assumption.
 Qed.
 
 Lemma TI_start s m a t prog : TI s m a t (tpc (start prog)).
@@ -561,6 +621,74 @@ Proof.
     cbn [mons mon_step]. rewrite HpC, Hrem. unfold payof in Hpay.
     destruct (nth_error (wP m) pr) as [[t' v']|]; [|discriminate]. cbn in Hpay. injection Hpay as ->.
     rewrite !Nat.eqb_refl. reflexivity.
+Qed.
+
+(* ---- nothing is lost: when no thread is between its CAS and its final store, every reserved
+   push has returned, and if pushes are ahead of pops (preadC < preadP) a pop that starts now and
+   runs alone returns the payload of ticket preadC (its six shared actions) ---- *)
+Lemma goto_fields s t p :
+  pP (goto s t p) = pP s /\ pC (goto s t p) = pC s /\ sp (goto s t p) = sp s /\ sc (goto s t p) = sc s /\
+  sl (goto s t p) = sl s /\ tpc (th (goto s t p) t) = p /\ tprog (th (goto s t p) t) = tprog (th s t).
+Proof. unfold goto, set_th. cbn. rewrite upd_same. cbn. repeat split. Qed.
+
+Lemma quiet_facts s m a :
+  Inv s m a -> (forall u, holds_ticket (tpc (th s u)) = false) ->
+  (forall k, k < pP s -> mem k (pdone m) = true) /\
+  (pC s < pP s -> sc s (idx (pC s)) = pC s /\ pC s < sp s (idx (pC s)) /\
+                  exists d rest, sl s (idx (pC s)) = d :: rest /\ payof m (pC s) = Some d).
+Proof.
+  intros I Q.
+  assert (QP : forall k, k < pP s -> k < sp s (idx k)).
+  { intros k Hk. destruct (i_heldP _ _ _ I k Hk) as [L|(u & H)]; [assumption|].
+    specialize (Q u). destruct (tpc (th s u)); discriminate. }
+  assert (QC : forall k, k < pC s -> k < sc s (idx k)).
+  { intros k Hk. destruct (i_heldC _ _ _ I k Hk) as [L|(u & H)]; [assumption|].
+    specialize (Q u). destruct (tpc (th s u)); discriminate. }
+  split; [intros k Hk; apply (i_done _ _ _ I); auto|].
+  intros Hlt. set (C := pC s) in *. pose proof (I1 C) as Hi.
+  assert (Hsc : sc s (idx C) = C).
+  { pose proof (i_bndC _ _ _ I _ Hi) as Hb. pose proof (i_congC _ _ _ I _ Hi) as Hc. fold C in Hb.
+    destruct (lt_eq_lt_dec (sc s (idx C)) C) as [[L|E]|L]; [|assumption|].
+    - pose proof (QC (sc s (idx C)) L) as H. rewrite Hc in H. lia.
+    - pose proof (I3 C (sc s (idx C)) (eq_sym Hc) L). lia. }
+  pose proof (QP C Hlt) as Hsp.
+  split; [assumption|]. split; [assumption|].
+  pose proof (i_chain _ _ _ I _ Hi) as Hch. pose proof (i_pay _ _ _ I _ Hi) as Hpay.
+  assert (Hlo : lo a (idx C) = C) by (destruct (i_lo _ _ _ I _ Hi) as [E|[E L]]; [congruence | fold C in L; lia]).
+  assert (Hhi : sp s (idx C) <= hi a (idx C)) by (destruct (i_hi _ _ _ I _ Hi) as [E|[E _]]; lia).
+  rewrite Hlo in Hch. inversion Hch as [x Ex Ey | x l b Hch' Ex Ey Ez]; [lia|].
+  rewrite <- Ey in Hpay. destruct (sl s (idx C)) as [|d rest]; [discriminate|].
+  cbn [map] in Hpay. injection Hpay as Hd _. exists d, rest. split; [reflexivity | symmetry; exact Hd].
+Qed.
+
+Lemma solo_pop s m a t :
+  Inv s m a -> (forall u, holds_ticket (tpc (th s u)) = false) -> pC s < pP s -> tpc (th s t) = C1 ->
+  exists d evs, snd (run mask [t; t; t; t; t; t] s) = evs ++ [EDoneC t (pC s) d] /\ payof m (pC s) = Some d.
+Proof.
+  intros I Q Hlt Hpc.
+  destruct (quiet_facts s m a I Q) as (_ & H). destruct (H Hlt) as (Hsc & Hsp & d & rest & Hsl & Hpay).
+  exists d. set (C := pC s) in *.
+  cbn [run].
+  (* 1: read preadC *)
+  unfold step at 1. rewrite Hpc. fold C.
+  destruct (goto_fields s t (C2 C)) as (F1 & F2 & F3 & F4 & F5 & F6 & F7). set (s1 := goto s t (C2 C)) in *.
+  (* 2: read seqC[idx] = C *)
+  unfold step at 1. rewrite F6, F4, Hsc, Nat.eqb_refl.
+  destruct (goto_fields s1 t (C3 C)) as (G1 & G2 & G3 & G4 & G5 & G6 & G7). set (s2 := goto s1 t (C3 C)) in *.
+  (* 3: read seqP[idx] > C *)
+  unfold step at 1. rewrite G6, G3, F3. destruct (Nat.leb_spec (sp s (idx C)) C) as [L|_]; [lia|].
+  destruct (goto_fields s2 t (C3a C)) as (K1 & K2 & K3 & K4 & K5 & K6 & K7). set (s3 := goto s2 t (C3a C)) in *.
+  (* 4: CAS on preadC succeeds *)
+  unfold step at 1. rewrite K6, K2, G2, F2. fold C. rewrite Nat.eqb_refl.
+  set (s4 := {| pP := pP s3; pC := C + 1; sp := sp s3; sc := sc s3; sl := sl s3;
+                th := upd (th s3) t {| tpc := C4 C; tprog := tprog (th s3 t) |} |}).
+  (* 5: slot pop *)
+  unfold step at 1. change (th s4 t) with (upd (th s3) t {| tpc := C4 C; tprog := tprog (th s3 t) |} t).
+  rewrite upd_same. cbn [tpc tprog]. change (sl s4) with (sl s3). rewrite K5, G5, F5, Hsl.
+  (* 6: final store, pop returns d *)
+  unfold step at 1. cbn [th]. rewrite upd_same. cbn [tpc tprog snd app].
+  exists [ERd t C; ERd t C; ERd t (sp s (idx C)); ECas t C true; EWinC t C; ESlPop t (Some d); EWr t (C + mask + 1)].
+  split; [reflexivity | exact Hpay].
 Qed.
 
 (* ---- schedules ---- *)
@@ -657,3 +785,71 @@ Proof.
   pose proof (c30_all_schedules_lemma k (all_progs progs) (sch0 ++ sch1 ++ sch2) Hk) as H.
   rewrite run_app, E1, run_app, E2 in H. destruct (run (Nat.ones k) sch2 s2) as [s3 e3]. exact H.
 Qed.
+
+(* ------------------------------------------------------------------------------------------ *)
+(* the consequences of acceptance (C30/TraceProofs.v) for the traces of the model *)
+Section Consequences.
+Variables (k : nat) (progs : list (list op)) (sched : list nat).
+Hypothesis Hk : 1 <= k.
+Let tr := snd (run (Nat.ones k) sched (init progs)).
+Let ok : c30_ok progs tr = true := c30_all_schedules_lemma k progs sched Hk.
+
+Lemma c30_tickets_consecutive_lemma :
+  ticketsP tr = seq 0 (length (ticketsP tr)) /\ ticketsC tr = seq 0 (length (ticketsC tr)).
+Proof. exact (tickets_consecutive_lemma progs tr ok). Qed.
+
+Lemma c30_ticket_order_lemma : forall tr1 t j d tr2, tr = tr1 ++ EDoneC t j d :: tr2 ->
+  exists tp, In (EWinP tp j d) tr1 /\ In (EDoneP tp j d) tr1 /\ In (EWinC t j) tr1.
+Proof. intros tr1 t j d tr2 E. apply (ticket_order_lemma progs tr1 t j d tr2). rewrite <- E. exact ok. Qed.
+
+Lemma c30_reservation_order_lemma : forall a t1 k1 v1 b t2 k2 v2 c,
+  tr = a ++ EWinP t1 k1 v1 :: b ++ EWinP t2 k2 v2 :: c -> k1 < k2.
+Proof. intros a t1 k1 v1 b t2 k2 v2 c E. apply (reservation_order_lemma progs a t1 k1 v1 b t2 k2 v2 c). rewrite <- E. exact ok. Qed.
+
+Lemma c30_at_most_once_lemma : NoDup (donesC tr) /\ NoDup (donesP tr).
+Proof. exact (at_most_once_lemma progs tr ok). Qed.
+
+Lemma c30_empty_only_if_lemma : forall tr1 t j tr2, tr = tr1 ++ EEmptyC t j :: tr2 ->
+  j = length (ticketsC tr1) /\ forall tp v, ~ In (EDoneP tp j v) tr1.
+Proof. intros tr1 t j tr2 E. apply (empty_only_if_lemma progs tr1 t j tr2). rewrite <- E. exact ok. Qed.
+
+Lemma c30_program_order_lemma : forall t, exists rest, nth t progs [] = ops_of t tr ++ rest.
+Proof. intros t. exact (program_order_lemma progs tr t ok). Qed.
+
+Lemma c30_no_loss_lemma :
+  let s := fst (run (Nat.ones k) sched (init progs)) in
+  (forall u, holds_ticket (tpc (th s u)) = false) ->
+  (forall j, j < pP s -> In j (donesP tr)) /\
+  (forall t, pC s < pP s -> tpc (th s t) = C1 ->
+     exists d tp evs, snd (run (Nat.ones k) [t; t; t; t; t; t] s) = evs ++ [EDoneC t (pC s) d] /\
+                      In (EWinP tp (pC s) d) tr).
+Proof.
+  intros s Q.
+  destruct (run_inv (Nat.ones k) (land_range k Hk) (land_period k Hk) (land_apart k Hk) sched _ _ _
+              (inv_init (Nat.ones k) (land_range k Hk) (land_small k Hk) progs)) as (m' & a' & Hm & I).
+  fold s in I. fold tr in Hm. pose proof (accepted_MI progs tr m' Hm) as M.
+  destruct (quiet_facts (Nat.ones k) (land_range k Hk) (land_apart k Hk) s m' a' I Q) as (Hall & _).
+  split.
+  - intros j Hj. apply (m_doneP _ _ _ M). apply Hall. assumption.
+  - intros t Hlt Hpc.
+    destruct (solo_pop (Nat.ones k) (land_range k Hk) (land_apart k Hk) s m' a' t I Q Hlt Hpc) as (d & evs & E & Hpay).
+    unfold payof in Hpay. destruct (nth_error (wP m') (pC s)) as [[tp v]|] eqn:Hn; [|discriminate].
+    cbn in Hpay. injection Hpay as ->.
+    exists d, tp, evs. split; [exact E | apply (m_wP _ _ _ M); exact Hn].
+Qed.
+End Consequences.
+
+(* an experiment in which six elements go round a 2-slot queue (tickets wrap twice), with a
+   failed CAS, an empty pop and a producer stalled between its CAS and its store: the monitor's
+   checks are exercised and everything pushed is returned exactly once *)
+Definition nv_progs : list (list op) :=
+  [[Push 11; Push 12; Push 13]; [Push 21; Push 22; Push 23]; [Pop; Pop; Pop]; [Pop; Pop; Pop]].
+Definition nv_sched : list nat := [2;2;2; 0;1;0;1;0;1; 3;3;3; 1;1;1;1;1; 2;2;2;2; 1;1;1;1;1;1;1;1; 3;3;3].
+Lemma c30_nonvacuous_lemma :
+  let tr := exec 2 nv_progs nv_sched 50 in
+  c30_ok (all_progs nv_progs) tr = true /\ c30_final_ok (all_progs nv_progs) tr = true /\
+  length (donesC tr) = 6 /\
+  existsb (fun e => match e with EEmptyC _ _ => true | _ => false end) tr = true /\
+  existsb (fun e => match e with ECas _ _ false => true | _ => false end) tr = true /\
+  existsb (fun e => match e with EWinP _ 5 _ => true | _ => false end) tr = true.
+Proof. vm_compute. repeat split. Qed.
